@@ -211,16 +211,41 @@ func canon(sb *strings.Builder, x interface{}) {
 		canon(sb, v.SearchCondition)
 		sb.WriteString(")")
 	case sql.SearchCondition:
+		// a chain of ORs is one n-ary disjunction however the parser nests it
+		var ops []interface{}
+		var collect func(x interface{})
+		collect = func(x interface{}) {
+			if sc, ok := x.(sql.SearchCondition); ok {
+				collect(sc.LHS)
+				collect(sc.RHS)
+				return
+			}
+			ops = append(ops, x)
+		}
+		collect(v)
 		sb.WriteString("OR(")
-		canon(sb, v.LHS)
-		sb.WriteString(", ")
-		canon(sb, v.RHS)
+		for _, o := range ops {
+			canon(sb, o)
+			sb.WriteString("; ")
+		}
 		sb.WriteString(")")
 	case sql.BooleanTerm:
+		var ops []interface{}
+		var collect func(x interface{})
+		collect = func(x interface{}) {
+			if bt, ok := x.(sql.BooleanTerm); ok {
+				collect(bt.LHS)
+				collect(bt.RHS)
+				return
+			}
+			ops = append(ops, x)
+		}
+		collect(v)
 		sb.WriteString("AND(")
-		canon(sb, v.LHS)
-		sb.WriteString(", ")
-		canon(sb, v.RHS)
+		for _, o := range ops {
+			canon(sb, o)
+			sb.WriteString("; ")
+		}
 		sb.WriteString(")")
 	case sql.Predicate:
 		canon(sb, v.ComparisonPredicate)
